@@ -24,8 +24,12 @@ for k in range(1, 6):
   HARNESSES.append(dict(COMMON, name="build_nonrep%d" % k, entry="h_build", encoded=BUILD, defines={"EDITS": 15, "NONREP": k}, tiers={"quick": {}, "thorough": {}},
        bounds="pair (A, B) with all four representable edits (symbolic values) plus: %s" % NR[k], cost=30))
 for _w, _nm in ((0, "obj"), (1, "topo")):
-  HARNESSES.append(dict(COMMON, name="build_dup_%s" % _nm, entry="h_build_dup", encoded=BUILD + APPLY, defines={"DUPWHERE": _w}, object_bits=13, tiers={"quick": {"defines": {"DUPV": 2}}, "thorough": {"defines": {"DUPV": 3}, "timeout": 3000}},
+  HARNESSES.append(dict(COMMON, name="build_dup_%s" % _nm, entry="h_build_dup", encoded=BUILD + APPLY, defines={"DUPWHERE": _w}, object_bits=13, tiers={"quick": {"defines": {"DUPV": 2}}, "thorough": {"defines": {"DUPV": 2}}},
        bounds="pair (A, B) with two infos of the SAME name on %s, each of the four values any of 2 (thorough: 3) strings: when build returns 0 the diff must apply, make A equal to B position by position, leave an empty diff, and reverse; otherwise TOO_COMPLEX" % ("PU1" if _w == 0 else "the topology"), cost=30))
+for _w, _nm in ((0, "obj"), (1, "topo")):
+  for _k in range(9):
+    HARNESSES.append(dict(COMMON, name="build_dup3_%s_s%d" % (_nm, _k), entry="h_build_dup", encoded=BUILD + APPLY, defines={"DUPWHERE": _w, "DUPV": 3, "NSLICE": 9, "SLICE": _k}, object_bits=13, tiers={"thorough": {"timeout": 2000}},
+         bounds="as build_dup_%s with 3 strings per value (81 pairs dealt to 9 slices; the 81 runs in one query did not end in 50 min)" % _nm, cost=60))
 HARNESSES.append(dict(COMMON, name="build_distances", entry="h_build_dist", encoded=BUILD + ["distances comparison of hwloc_topology_diff_build"], tiers={"quick": {}, "thorough": {}},
        unwindset=dict(COMMON["unwindset"], **{"memcmp.0": 40}), bounds="two identical topologies, one 2x2 distances structure on each side with arbitrary values and kinds", cost=20))
 # diff export -> import through the common XML code (element-tree harness of C05: same source, same query)
